@@ -1,11 +1,11 @@
 CONSTANTS
-  Names = {1, 2, 3, 4}
-  LKeys = {3, 5, 6}
-  R = 2
-  P = 2
-  Q = 4
-  HTabs <- FixedTabs
-  SimLen = 25
+  Keys = {"A", "B"}
+  N = 5
+  PushAfter = 1
+  Agg = 2
+  MaxT = 1000
+  MaxFlows = 1000
+  SimLen = 18
 INIT GInit
 NEXT GNext
 INVARIANT EmitAtLen
